@@ -1,5 +1,6 @@
 """C44 Triggers see every row change of their table (db19/triggers.go, tran.go)"""
 import dbcommon
+from vlib import Infra
 
 META = {
  "engine": "tla-fkey",
@@ -16,3 +17,46 @@ def run(ctx):
         dbcommon.run_db(ctx, "trigpairs", 60 if ctx.thorough() else 5, "C44p" + "x" * k)
         dbcommon.run_db(ctx, "trig", 24 if ctx.thorough() else 1, "C44c" + "x" * k)
     ctx.assumptions += dbcommon.ASSUME
+    run_triglib(ctx)
+
+
+def run_triglib(ctx):
+    """library-defined triggers: the lookup of Trigger_<table> through the global name table,
+    its 'no definition' cache and the library loader (Use / Unuse / Unload)"""
+    # design level: the caching scheme of core/globals.go (values / noDef / cleared) against the
+    # documented promises (TrigLibRules.tla), exhaustively
+    ctx.tlc_mc("MC_TrigLib.tla", "TrigLib_quick.cfg", timeout=600)
+    if ctx.thorough():
+        ctx.tlc_mc("MC_TrigLib.tla", "TrigLib_quick2.cfg", timeout=900)
+        ctx.tlc_mc("MC_TrigLib.tla", "TrigLib_quick3.cfg", timeout=900)
+        ctx.tlc_mc("MC_TrigLib.tla", "TrigLib_thorough.cfg", timeout=2400)
+    # anti-vacuity: SetNoDef that leaves g.cleared alone (the next UnloadAll returns early)
+    # must break the promise in the model; thorough: the other deviations as well
+    devs = ["setnodef"]
+    if ctx.thorough():
+        devs += ["setname", "unloadname", "unloadall", "usenounload", "firstlib"]
+    for d in devs:
+        ctx.tlc_mc("MC_TrigLib.tla", "TrigLib_dev_%s.cfg" % d, timeout=300, expect_violation="Promised", count=False)
+    # conformance: real db19 / core.Global / dbms library lookup, triggers in library records
+    drv = ctx.go_build("triglib")
+    for k in range(4 if ctx.thorough() else 1):
+        trace = "%s/triglib-%d.ndjson" % (ctx.work, k)
+        nscen = 600 if ctx.thorough() else 250
+        rc, out, summ = ctx.driver(drv, [trace, nscen], timeout=900,
+                                   env={"VERIF_SEED": str(ctx.seed * 1000 + k)}, name="triglib")
+        if rc != 0:
+            raise Infra("triglib driver failed rc=%d:\n%s" % (rc, out[-3000:]))
+        if summ.get("errors", 0):
+            raise Infra("triglib: %d actions raised an exception (last: %s)" % (summ["errors"], summ.get("last_error")))
+        ctx.sample_trace_lines(trace, 6, kind="real trace excerpt (triglib)")
+        res = ctx.tlc_trace("TraceTrigLib.tla", "TraceTrigLib.cfg", trace, timeout=900)
+        if not res["accepted"]:
+            ctx.report_rejection(trace, res)
+            return
+        ctx.cov["library_trigger_row_changes"] = ctx.cov.get("library_trigger_row_changes", 0) + summ.get("rowchanges", 0)
+        ctx.cov["library_trigger_calls"] = ctx.cov.get("library_trigger_calls", 0) + summ.get("trigger_calls", 0)
+    ctx.assumptions += [
+        "triglib: core.Libload is a copy of libload in gsuneido.go (package main) without library overrides and tags",
+        "triglib: one session (thread); 3 data tables, libraries stdlib/applib/extlib; definitions identify themselves (library, record version) through a Go builtin",
+        "TrigLib TLC bounds: see tlc_runs (1-2 tables, 2-3 libraries, 1-2 versions per record, disable depth <= 2)",
+    ]
